@@ -122,6 +122,51 @@ func (a *vTreeActor) Receive(c *Context) {
 	}
 }
 
+// vTreeEvents counts ActorDuplicateIdEvents; it is a synchronous subscriber of the event stream.
+type vTreeEvents struct {
+	pid  *PID
+	mu   sync.Mutex
+	dups int
+	mk   chan struct{}
+}
+type vTreeMarker struct{}
+
+func (r *vTreeEvents) Start()            {}
+func (r *vTreeEvents) PID() *PID         { return r.pid }
+func (r *vTreeEvents) Invoke([]Envelope) {}
+func (r *vTreeEvents) Shutdown()         {}
+func (r *vTreeEvents) Send(_ *PID, msg any, _ *PID) {
+	r.mu.Lock()
+	defer r.mu.Unlock()
+	switch msg.(type) {
+	case ActorDuplicateIdEvent:
+		r.dups++
+	case vTreeMarker:
+		if r.mk != nil {
+			close(r.mk)
+			r.mk = nil
+		}
+	}
+}
+
+// flushDups waits until the event stream has handled everything broadcast so far and returns (and resets) the count.
+func (r *vTreeEvents) flushDups(e *Engine) int {
+	mk := make(chan struct{})
+	r.mu.Lock()
+	r.mk = mk
+	r.mu.Unlock()
+	e.BroadcastEvent(vTreeMarker{})
+	select {
+	case <-mk:
+	case <-time.After(3 * time.Second):
+	}
+	r.mu.Lock()
+	defer r.mu.Unlock()
+	n := r.dups
+	r.dups = 0
+	return n
+}
+
 // node ids: the root is "root/n"; a child named x of a node with id P is P + "/x/n"
 func vTreeID(path string) string {
 	parts := strings.Split(path, ".")
@@ -138,6 +183,9 @@ func runTreeHistory(t testing.TB, ops []string) string {
 		t.Fatal(err)
 	}
 	h := &vTreeH{e: e}
+	evs := &vTreeEvents{pid: NewPID(e.address, "verif/treeevents")}
+	e.SpawnProc(evs)
+	e.Subscribe(evs.pid)
 	live := map[string]bool{}
 	pidOf := func(path string) *PID { return NewPID(e.address, vTreeID(path)) }
 	takeOrder := func() []string {
@@ -222,10 +270,11 @@ func runTreeHistory(t testing.TB, ops []string) string {
 				continue
 			}
 			ack := make(chan string, 1)
+			evs.flushDups(e) // forget duplicate-id events of earlier operations
 			e.Send(pidOf(f[0]), vTreeSpawn{f[1], ack, false})
 			select {
 			case id := <-ack:
-				out = append(out, "dup="+id)
+				out = append(out, "dup="+id+" dupev="+strconv.Itoa(evs.flushDups(e)))
 			case <-time.After(3 * time.Second):
 				out = append(out, "NOSPAWN")
 			}
